@@ -256,7 +256,17 @@ fn random(a: &Args, tracer: &Tracer) {
     opts.avoid_single_should_msm = false;
     let total = if fixed.is_empty() { nq } else { fixed.len() };
     for qi in 0..total {
-        let mut qj = if fixed.is_empty() { qlib::gen_query(&mut rng, depth, &opts) } else { fixed[qi].clone() };
+        let mut qj = if !fixed.is_empty() {
+            fixed[qi].clone()
+        } else if rng.random_bool(0.07) {
+            // a top-level phrase of three terms with slop: judged by the two documented bounds and by the independence of the
+            // answer from the collector and from scoring (Count / Query::count / DocSetCollector do not score)
+            let mut ws = vec!["t0", "t1", "t2", "t3", "all"];
+            ws.shuffle(&mut rng);
+            json!({"k":"phrase","f":"title","ts":ws[..3],"slop":rng.random_range(1..3)})
+        } else {
+            qlib::gen_query(&mut rng, depth, &opts)
+        };
         annotate_prefix(&mut qj);
         let q = match qlib::build_query(&schema, &qj) {
             Ok(q) => q,
